@@ -44,6 +44,7 @@ def main():
     if args.cmd == "check":
         seed = int(os.environ.get("VERIF_SEED", "1") or "1")
         tier = args.tier if args.tier in ("quick", "thorough") else "quick"
+        os.environ["VERIF_TIER"] = tier
         mod = importlib.import_module("props." + args.pid.lower())
         res = common.Result(args.pid, tier, seed)
         try:
